@@ -103,8 +103,20 @@ def from_structure3d(s3, model=None) -> List[RRes]:
         for a in r.atoms:
             if a.name not in atoms:  # find_atom semantics: first atom of a name
                 atoms[a.name] = np.array([a.x, a.y, a.z], dtype=float)
-        out.append(RRes(len(out), r.chain, r.number, r.icode, r.one_letter_name, r.model, atoms, r.name or ""))
+        chain, number, icode, name = identity(r)
+        out.append(RRes(len(out), chain, number, icode, r.one_letter_name, r.model, atoms, name or ""))
     return out
+
+
+def identity(r):
+    """(chain, number, insertion code, name) of a residue read from its author identity when it has one, else from
+    its label identity - taken from the two records themselves, not from the library's convenience properties"""
+    au, lab = getattr(r, "auth", None), getattr(r, "label", None)
+    if au is not None:
+        return au.chain, au.number, au.icode, au.name
+    if lab is not None:
+        return lab.chain, lab.number, None, lab.name
+    raise ValueError("residue without identity")
 
 
 def angle_deg(u, v) -> float:
